@@ -1781,8 +1781,9 @@ func (c *Conn) readHeader(fr *FrameHeader, r *Ctx) error {
 				continue
 			}
 
+			// a status code is exactly three digits: "0200" is not 200
 			n, err := parseUint(hf.ValueBytes())
-			if err != nil || n < 100 || n > 999 {
+			if err != nil || n < 100 || n > 999 || len(hf.ValueBytes()) != 3 {
 				malformed = errInvalidStatus
 				continue
 			}
@@ -1839,8 +1840,12 @@ func (c *Conn) readHeader(fr *FrameHeader, r *Ctx) error {
 			return errInvalidStatus
 		case r.hdrStatus >= 200:
 			r.hdrBlocks++
+		case r.hdrEndStream:
+			// A 1xx block is followed by another block with a :status of its
+			// own: an interim response cannot be the end of the stream (RFC
+			// 7540 8.1). It used to be delivered as the response.
+			return errInvalidStatus
 		}
-		// a 1xx block is followed by another block with a :status of its own
 	}
 
 	return nil
